@@ -255,6 +255,9 @@ pub fn run(ctx: &Ctx, rep: &mut Report) {
     engine::drive(ctx, rep, "leak:iovec-histories", iovec_sm::history(Mix::Memory, 60), cases, check_history);
     let cases = ctx.share(ctx.tier.pick(4_000, 200_000));
     engine::drive(ctx, rep, "leak:iovec-general", iovec_sm::history(Mix::General, 80), cases, check_history);
+    // The same histories with every third operation, and every other drop, on another thread.
+    let cases = ctx.share(ctx.tier.pick(3_000, 100_000));
+    engine::drive(ctx, rep, "leak:iovec-thread-handoff", iovec_sm::history(Mix::Memory, 60), cases, |h: &History| iovec_sm::with_thread_handoff(|| check_history(h)));
     let cases = ctx.share(ctx.tier.pick(3_000, 150_000));
     engine::drive(ctx, rep, "leak:codec", codec::codec_case(false), cases, check_codec);
     let cases = ctx.share(ctx.tier.pick(300, 15_000));
@@ -294,6 +297,7 @@ fn replay(_ctx: &Ctx, group: &str, case: &Value) -> CaseResult {
         "leak:stream-chunker" => check_chunker(&parse_case::<c08::Case>(case)?),
         "footprint" => check_footprint(&parse_case::<StreamCase>(case)?),
         "footprint:stream-reader" => check_reader_footprint(&parse_case::<ReaderFootprintCase>(case)?),
+        "leak:iovec-thread-handoff" => iovec_sm::with_thread_handoff(|| check_history(&parse_case::<History>(case)?)),
         _ => check_history(&parse_case::<History>(case)?),
     }
 }
@@ -301,7 +305,7 @@ fn replay(_ctx: &Ctx, group: &str, case: &Value) -> CaseResult {
 pub fn def() -> PropDef {
     PropDef {
         id: "C10",
-        rule: "Single-threaded worker processes (the counters are process-wide). leak:* groups: a generated history (C05's OwningIovec / AnchoredSlice state machine with clones, takes, arena swaps, held anchors; C01's Encoder/Decoder feeding and draining plans; C06's StreamReader and C08's StreamChunker runs) is executed, every object is dropped in a generated order, and (num_live_chunks, num_live_bytes) must equal their values before the case. footprint:stream-reader: streams of 8..24 MiB (16..256 MiB in thorough) of delimited records (empty, one byte, invalid at the first byte, 300 B, 5000 B, 70000 B, extra delimiters; one kind dominating or an arbitrary mixture) read record by record through one StreamReader with block sizes 4 KiB / 64 KiB / 256 KiB / default, live bytes sampled after every record against 4 MiB + 2 blocks and first-half / second-half growth. footprint: streams of 16..40 MiB (32..512 MiB in thorough) of four shapes through Encoder, Decoder or an Encoder->Decoder pipeline, fed in phases of pieces of 1 B..1 MiB with all input methods, the consumer draining everything consumable after every call (or every 2nd / 3rd call, with the bound raised by what may be left unconsumed); live arena bytes are sampled after every call: the peak must stay below 4 MiB per codec and the peak over the second half of the stream must not exceed the peak over the first half by more than one chunk (1 MiB) plus what the calls between two drains can add (2 x every x largest piece) - a leak of one chunk per arena turnover fails on these lengths. Non-trivial: (leak) a history with a clone, a taken / swapped arena, or an anchor left behind a partially consumed slice; (footprint) stream >= 16 MiB. Distinct: hash of the serialised case.",
+        rule: "Single-threaded worker processes (the counters are process-wide). leak:* groups (leak:iovec-thread-handoff executes every third operation and every other drop on a fresh thread, one thread at a time: the objects are Send): a generated history (C05's OwningIovec / AnchoredSlice state machine with clones, takes, arena swaps, held anchors; C01's Encoder/Decoder feeding and draining plans; C06's StreamReader and C08's StreamChunker runs) is executed, every object is dropped in a generated order, and (num_live_chunks, num_live_bytes) must equal their values before the case. footprint:stream-reader: streams of 8..24 MiB (16..256 MiB in thorough) of delimited records (empty, one byte, invalid at the first byte, 300 B, 5000 B, 70000 B, extra delimiters; one kind dominating or an arbitrary mixture) read record by record through one StreamReader with block sizes 4 KiB / 64 KiB / 256 KiB / default, live bytes sampled after every record against 4 MiB + 2 blocks and first-half / second-half growth. footprint: streams of 16..40 MiB (32..512 MiB in thorough) of four shapes through Encoder, Decoder or an Encoder->Decoder pipeline, fed in phases of pieces of 1 B..1 MiB with all input methods, the consumer draining everything consumable after every call (or every 2nd / 3rd call, with the bound raised by what may be left unconsumed); live arena bytes are sampled after every call: the peak must stay below 4 MiB per codec and the peak over the second half of the stream must not exceed the peak over the first half by more than one chunk (1 MiB) plus what the calls between two drains can add (2 x every x largest piece) - a leak of one chunk per arena turnover fails on these lengths. Non-trivial: (leak) a history with a clone, a taken / swapped arena, or an anchor left behind a partially consumed slice; (footprint) stream >= 16 MiB. Distinct: hash of the serialised case.",
         assumptions: &["arena requests <= 1 MiB in the footprint runs", "the footprint bound is a constant with margin (probed peaks: ~2 MiB per codec), not a minimum"],
         exhaustive_note: None,
         shards: |_t: Tier| 16,
